@@ -432,6 +432,26 @@ pub fn run(ctx: &Ctx) -> Value {
         e.to_dtz(None, 0);
         e.flush(&mut tw);
     }
+    // width aliases of the year groups: a century whose year exceeds the i32 range by a multiple of 2^32 (or 2^31) must not
+    // wrap back onto a valid year (century and two-digit year are i32-ranged fields, their combination is not)
+    for y in [1984i64, 2015, 0, 99, 9999, 262_142] { for add in [1i64 << 32, 1i64 << 31, 3i64 << 32] {
+        let yy = y + add;
+        if yy / 100 > i32::MAX as i64 { continue; }
+        for iso in [false, true] { for form in 0..3 {
+            ep += 1;
+            let mut e = Episode::new(ep);
+            if iso { e.set("isoyear_div_100", yy / 100); e.set("isoyear_mod_100", yy % 100); e.set("isoweek", 2); e.set("weekday", 3); }
+            else {
+                e.set("year_div_100", yy / 100); e.set("year_mod_100", yy % 100);
+                match form { 0 => { e.set("month", 1); e.set("day", 1); } 1 => { e.set("ordinal", 100); } _ => { e.set("week_from_mon", 10); e.set("weekday", 2); } }
+            }
+            e.to_naive_date(None);
+            e.set("hour", 1); e.set("minute", 2);
+            e.to_ndt(None, 0);
+            e.flush(&mut tw);
+            if iso { break; }
+        } }
+    } }
     let mut swept = 0u64;
     let values: Vec<W> = {
         let mut v = Vec::new();
